@@ -253,6 +253,42 @@ impl<'a, S: Setup> G<'a, S> {
             self.push(Stmt::Add(m, d), vec![vm + vd]);
         }
     }
+    /// Several products created first, then summed up in a chain (sum-of-products style code):
+    /// exercises fusion candidates that depend on each other's outputs and positions.
+    fn fusion_chain(&mut self) {
+        let k = self.rng.random_range(2..5usize);
+        let mut prods = vec![];
+        for _ in 0..k {
+            let (a, b) = (self.var(), self.var());
+            let v = self.vals[a] * self.vals[b];
+            prods.push(self.push(Stmt::Mul(a, b), vec![v]));
+            if chance(self.rng, 1, 4) {
+                // an unrelated op in between
+                let (e, f) = (self.var(), self.var());
+                let v = self.vals[e] + self.vals[f];
+                self.push(Stmt::Add(e, f), vec![v]);
+            }
+        }
+        let mut acc = if chance(self.rng, 1, 2) {
+            let (e, f) = (self.var(), self.var());
+            let v = self.vals[e] + self.vals[f];
+            self.push(Stmt::Add(e, f), vec![v])
+        } else {
+            self.var()
+        };
+        if chance(self.rng, 1, 2) {
+            prods.reverse();
+        }
+        for p in prods {
+            let (vp, va) = (self.vals[p], self.vals[acc]);
+            acc = match self.rng.random_range(0..4u32) {
+                0 => self.push(Stmt::Add(p, acc), vec![vp + va]),
+                1 => self.push(Stmt::Add(acc, p), vec![va + vp]),
+                2 => self.push(Stmt::Sub(p, acc), vec![vp - va]),
+                _ => self.push(Stmt::Add(p, acc), vec![vp + va]),
+            };
+        }
+    }
     fn mul_add(&mut self) {
         let (a, b, c) = (self.var(), self.var(), self.var());
         let v = self.vals[a] * self.vals[b] + self.vals[c];
@@ -543,8 +579,10 @@ pub fn gen_prog<S: Setup>(rng: &mut SmallRng, opts: &GenOpts) -> Generated<S> {
             g.assert();
         } else if r < c + 16 {
             g.leaf();
-        } else if r < c + 26 {
+        } else if r < c + 21 {
             g.mul_then_add();
+        } else if r < c + 26 {
+            g.fusion_chain();
         } else if r < c + 32 {
             g.duplicate();
         } else if r < c + 38 {
